@@ -1173,10 +1173,10 @@ Section Transform.
     - destruct (keeps ctes names mm); cbn [flat_map app g_uJ emit_join]; rewrite ?app_nil_r; reflexivity.
   Qed.
 
-  Theorem passes_nohdr_subst : forall l, wf_segs names l = true ->
-    passes_nohdr names (toks l) = toks (subst_segs names (cte_names (toks l)) k_default true l).
+  Theorem passes_nohdr_subst : forall q l, wf_segs names l = true ->
+    passes_nohdr q names (toks l) = toks (subst_segs names (cte_set q names (toks l)) k_default true l).
   Proof.
-    intros l Hwf. unfold passes_nohdr. set (ctes := cte_names (toks l)).
+    intros q l Hwf. unfold passes_nohdr. set (ctes := cte_set q names (toks l)).
     rewrite (pass_qF names l Hwf).
     pose proof (wf_flat_map names Hrp _ l emitter_qF Hwf) as Hwf1.
     rewrite (pass_qJ names _ Hwf1).
@@ -1196,10 +1196,10 @@ Section Transform.
     - destruct (keeps ctes names mm); cbn [flat_map app g_uJ emit_join]; rewrite ?app_nil_r; reflexivity.
   Qed.
 
-  Theorem passes_hdr_subst : forall word hdr l, wf_segs names l = true ->
-    passes_hdr word names hdr (toks l) = toks (subst_segs names (hdr_ctes word (toks l)) hdr false l).
+  Theorem passes_hdr_subst : forall q word hdr l, wf_segs names l = true ->
+    passes_hdr q word names hdr (toks l) = toks (subst_segs names (hdr_ctes q word names (toks l)) hdr false l).
   Proof.
-    intros word hdr l Hwf. unfold passes_hdr. set (ctes := hdr_ctes word (toks l)).
+    intros q word hdr l Hwf. unfold passes_hdr. set (ctes := hdr_ctes q word names (toks l)).
     rewrite (pass_uF names ctes hdr _ Hwf).
     pose proof (wf_flat_map names Hrp _ _ (emitter_uF ctes hdr) Hwf) as Hwf3.
     rewrite (pass_uJ names ctes hdr _ Hwf3).
@@ -1464,10 +1464,10 @@ Section Coverage.
         unfold cands. cbn [flat_map q_of_from q_of_join u_of_from u_of_join]. rewrite ?map_app, !in_app_iff. cbn [map In fst snd]. tauto.
   Qed.
 
-  Lemma extract_refs_cands : forall l, wf_segs names l = true -> ctes_e = cte_names (toks l) ->
-    extract_refs ex names (toks l) = snd (add_cands [] (cands l)).
+  Lemma extract_refs_cands : forall q l, wf_segs names l = true -> ctes_e = cte_set q names (toks l) ->
+    extract_refs q ex names (toks l) = snd (add_cands [] (cands l)).
   Proof.
-    intros l Hwf E. unfold extract_refs, cands. rewrite <- E.
+    intros q l Hwf E. unfold extract_refs, cands. rewrite <- E.
     rewrite (scan_dbF_segs names l Hwf), (scan_dbJ_segs names l Hwf), (scan_sF_segs names l Hwf), (scan_sJ_segs names l Hwf).
     reflexivity.
   Qed.
@@ -1483,27 +1483,127 @@ Section Coverage.
   Qed.
 End Coverage.
 
-Theorem coverage_nohdr : forall ex names l, wf_segs names l = true ->
-  forall r, In r (rewritten_refs names (cte_names (toks l)) k_default true l) ->
-  covers (extract_refs ex names (toks l)) r = true.
+(* with keys on the name as written, equal keys are equal references *)
+Definition exact_cand (c : bytes * ref) : Prop := dotfree (fst (snd c)) /\ fst c = db_key (fst (snd c)) (snd (snd c)).
+Lemma exact_cands_same_key : forall k r r', exact_cand (k, r) -> exact_cand (k, r') -> r = r'.
 Proof.
-  intros ex names l Hwf r Hin.
-  destruct (read_has_cand names (cte_names (toks l)) ex _ k_default true l Hwf eq_refl r Hin) as (k & db & Hc & Hdb).
-  rewrite (extract_refs_cands names (cte_names (toks l)) ex l Hwf eq_refl).
+  intros k [db m] [db' m'] [Hd E] [Hd' E']. cbn [fst snd] in *. rewrite E in E'. unfold db_key in E'.
+  destruct (split_at_dot _ _ _ _ Hd Hd' E') as [-> ->]. reflexivity.
+Qed.
+
+Section CoverageExact.
+  Variable names : names_t.
+  Variable ctes_e : list bytes.
+
+  Lemma simple_cand_exact : forall raw rest k rf, plain_name names raw = true ->
+    simple_cand true names ctes_e raw rest = Some (k, rf) -> exact_cand (k, rf).
+  Proof.
+    intros raw rest k rf Hp H. unfold simple_cand in H.
+    destruct (should_skip _); [discriminate|]. destruct (_ || _); [discriminate|].
+    destruct (dot_at rest); [discriminate|]. destruct (function_call_at rest); [discriminate|].
+    injection H as <- <-. split; reflexivity.
+  Qed.
+  Lemma db_cand_exact : forall a b k rf, plain_name names a = true -> db_cand names a b = Some (k, rf) -> exact_cand (k, rf).
+  Proof. intros a b k rf Ha H. unfold db_cand in H. injection H as <- <-. split; [apply (plain_name_facts _ _ Ha)|reflexivity]. Qed.
+
+  Lemma cands_exact : forall l, wf_segs names l = true -> forall k rf, In (Some (k, rf)) (cands names ctes_e true l) -> exact_cand (k, rf).
+  Proof.
+    intros l Hwf k rf Hin. unfold cands in Hin.
+    repeat (apply in_app_or in Hin; destruct Hin as [Hin|Hin]); apply in_map_iff in Hin; destruct Hin as (x & Hx & Hin).
+    - apply in_flat_map in Hin. destruct Hin as (s & Hs & Hq).
+      assert (plain_name names (fst x) = true).
+      { clear Hx. induction l as [|s0 r IH]; [destruct Hs|]. destruct Hs as [->|Hs]; [|apply IH; [eapply wf_tail; eassumption|exact Hs]].
+        destruct s as [t|f ws [d|] mm|p db mm|kp]; cbn [q_of_from In] in Hq; try contradiction. destruct Hq as [<-|[]].
+        cbn [wf_segs] in Hwf. repeat (apply andb_true_iff in Hwf; destruct Hwf as [Hwf ?]).
+        destruct (name_ok_facts _ _ _ _ H0) as (_ & Hd & _). exact Hd. }
+      eapply db_cand_exact; eassumption.
+    - apply in_flat_map in Hin. destruct Hin as (s & Hs & Hq).
+      assert (plain_name names (snd (fst x)) = true).
+      { clear Hx. induction l as [|s0 r IH]; [destruct Hs|]. destruct Hs as [->|Hs]; [|apply IH; [eapply wf_tail; eassumption|exact Hs]].
+        destruct s as [t|f ws db mm|p [d|] mm|kp]; cbn [q_of_join In] in Hq; try contradiction. destruct Hq as [<-|[]].
+        cbn [wf_segs] in Hwf. repeat (apply andb_true_iff in Hwf; destruct Hwf as [Hwf ?]).
+        destruct (name_ok_facts _ _ _ _ H0) as (_ & Hd & _). exact Hd. }
+      eapply db_cand_exact; eassumption.
+    - assert (plain_name names (fst x) = true).
+      { clear Hx. induction l as [|s0 r IH]; [destruct Hin|]. cbn [u_of_from] in Hin. apply in_app_or in Hin.
+        destruct Hin as [Hin|Hin]; [|apply IH; [eapply wf_tail; eassumption|exact Hin]].
+        cbn [wf_segs] in Hwf. apply andb_true_iff in Hwf. destruct Hwf as [Hs0 _].
+        destruct s0 as [t|f ws [d|] mm|p db mm|kp]; cbn [In] in Hin; try contradiction; destruct Hin as [<-|[]]; cbn [fst];
+          apply andb_true_iff in Hs0; destruct Hs0 as [_ Hn]; destruct (name_ok_facts _ _ _ _ Hn) as (Hm & Hd & _); assumption. }
+      eapply simple_cand_exact; eassumption.
+    - assert (plain_name names (snd (fst x)) = true).
+      { clear Hx. induction l as [|s0 r IH]; [destruct Hin|]. cbn [u_of_join] in Hin. apply in_app_or in Hin.
+        destruct Hin as [Hin|Hin]; [|apply IH; [eapply wf_tail; eassumption|exact Hin]].
+        cbn [wf_segs] in Hwf. apply andb_true_iff in Hwf. destruct Hwf as [Hs0 _].
+        destruct s0 as [t|f ws db mm|p [d|] mm|kp]; cbn [In] in Hin; try contradiction; destruct Hin as [<-|[]]; cbn [fst snd];
+          apply andb_true_iff in Hs0; destruct Hs0 as [_ Hn]; destruct (name_ok_facts _ _ _ _ Hn) as (Hm & Hd & _); assumption. }
+      eapply simple_cand_exact; eassumption.
+  Qed.
+
+  Lemma covered_by_cand_exact : forall l, wf_segs names l = true -> forall k rf,
+    In (Some (k, rf)) (cands names ctes_e true l) -> In rf (snd (add_cands [] (cands names ctes_e true l))).
+  Proof.
+    intros l Hwf k rf Hin.
+    destruct (add_cands_complete (cands names ctes_e true l) [] k rf Hin eq_refl) as (rf' & H1 & H2).
+    rewrite (exact_cands_same_key k rf rf' (cands_exact l Hwf _ _ Hin) (cands_exact l Hwf _ _ H1)). exact H2.
+  Qed.
+End CoverageExact.
+
+Lemma covers_exact_In : forall chk r, In r chk -> covers_exact chk r = true.
+Proof.
+  intros chk r H. unfold covers_exact. apply existsb_exists. exists r. split; [exact H|].
+  unfold ref_eqb. rewrite !bytes_eqb_refl. reflexivity.
+Qed.
+
+Theorem coverage_nohdr_exact : forall q names l, wf_segs names l = true ->
+  forall r, In r (rewritten_refs names (cte_set q names (toks l)) k_default true l) ->
+  covers_exact (extract_refs q true names (toks l)) r = true.
+Proof.
+  intros q names l Hwf r Hin.
+  destruct (read_has_cand names (cte_set q names (toks l)) true _ k_default true l Hwf eq_refl r Hin) as (k & db & Hc & Hdb).
+  rewrite (extract_refs_cands names (cte_set q names (toks l)) true q l Hwf eq_refl).
+  apply covers_exact_In.
+  assert (db = fst r) as E by (destruct Hdb as [[_ ->]|[-> ->]]; reflexivity).
+  rewrite E in Hc. rewrite <- surjective_pairing in Hc.
+  eapply covered_by_cand_exact; eassumption.
+Qed.
+
+Theorem coverage_hdr_exact : forall q word names hdr l, wf_segs names l = true -> hdr <> [] ->
+  hdr_ctes q word names (toks l) = cte_set q names (toks l) ->
+  forall r, In r (rewritten_refs names (hdr_ctes q word names (toks l)) hdr false l) ->
+  covers_exact (override_default hdr (extract_refs q true names (toks l))) r = true.
+Proof.
+  intros q word names hdr l Hwf Hh Ec r Hin. rewrite Ec in Hin.
+  destruct (read_has_cand names (cte_set q names (toks l)) true _ hdr false l Hwf eq_refl r Hin) as (k & db & Hc & Hdb).
+  rewrite (extract_refs_cands names (cte_set q names (toks l)) true q l Hwf eq_refl).
+  destruct Hdb as [[Hq _]|[-> Hr]]; [discriminate|].
+  apply covers_exact_In. unfold override_default. destruct hdr as [|h0 hdr']; [congruence|].
+  apply in_map_iff. exists (k_default, snd r). split.
+  - cbn. rewrite <- Hr. symmetry. apply surjective_pairing.
+  - eapply covered_by_cand_exact; eassumption.
+Qed.
+
+Theorem coverage_nohdr : forall q ex names l, wf_segs names l = true ->
+  forall r, In r (rewritten_refs names (cte_set q names (toks l)) k_default true l) ->
+  covers (extract_refs q ex names (toks l)) r = true.
+Proof.
+  intros q ex names l Hwf r Hin.
+  destruct (read_has_cand names (cte_set q names (toks l)) ex _ k_default true l Hwf eq_refl r Hin) as (k & db & Hc & Hdb).
+  rewrite (extract_refs_cands names (cte_set q names (toks l)) ex q l Hwf eq_refl).
   destruct (covered_by_cand names _ ex l Hwf k db (snd r) Hc) as (m' & Hm' & El).
   unfold covers. apply existsb_exists. exists (db, m'). split; [exact Hm'|]. cbn [fst snd].
   assert (db = fst r) as -> by (destruct Hdb as [[_ ->]|[-> ->]]; reflexivity).
   rewrite bytes_eqb_refl, El, bytes_eqb_refl. reflexivity.
 Qed.
 
-Theorem coverage_hdr : forall ex word names hdr l, wf_segs names l = true -> hdr <> [] ->
-  hdr_ctes word (toks l) = cte_names (toks l) ->
-  forall r, In r (rewritten_refs names (hdr_ctes word (toks l)) hdr false l) ->
-  covers (override_default hdr (extract_refs ex names (toks l))) r = true.
+Theorem coverage_hdr : forall q ex word names hdr l, wf_segs names l = true -> hdr <> [] ->
+  hdr_ctes q word names (toks l) = cte_set q names (toks l) ->
+  forall r, In r (rewritten_refs names (hdr_ctes q word names (toks l)) hdr false l) ->
+  covers (override_default hdr (extract_refs q ex names (toks l))) r = true.
 Proof.
-  intros ex word names hdr l Hwf Hh Ec r Hin. rewrite Ec in Hin.
-  destruct (read_has_cand names (cte_names (toks l)) ex _ hdr false l Hwf eq_refl r Hin) as (k & db & Hc & Hdb).
-  rewrite (extract_refs_cands names (cte_names (toks l)) ex l Hwf eq_refl).
+  intros q ex word names hdr l Hwf Hh Ec r Hin. rewrite Ec in Hin.
+  destruct (read_has_cand names (cte_set q names (toks l)) ex _ hdr false l Hwf eq_refl r Hin) as (k & db & Hc & Hdb).
+  rewrite (extract_refs_cands names (cte_set q names (toks l)) ex q l Hwf eq_refl).
   destruct (covered_by_cand names _ ex l Hwf k db (snd r) Hc) as (m' & Hm' & El).
   destruct Hdb as [[Hq _]|[-> Hr]]; [discriminate|].
   unfold covers. apply existsb_exists. exists (hdr, m'). split.
@@ -1541,26 +1641,26 @@ Definition req_in_grammar (s : bytes) : bool := in_grammar (req_names s) (req_to
 Definition restore (s : bytes) (ts : list tok) : bytes :=
   unmask (unmask_from (untok ts) (n_fmasks (norm_p s))) (n_masks (norm_p s)).
 
-Theorem convert_nohdr_subst : forall s, req_in_grammar s = true ->
-  convert_nohdr s = restore s (toks (subst_segs (req_names s) (cte_names (req_toks s)) k_default true (req_segs s))).
+Theorem convert_nohdr_subst : forall q s, req_in_grammar s = true ->
+  convert_nohdr q s = restore s (toks (subst_segs (req_names s) (cte_set q (req_names s) (req_toks s)) k_default true (req_segs s))).
 Proof.
-  intros s H. destruct (in_grammar_facts _ _ H) as (E & Hwf & Hrp).
+  intros q s H. destruct (in_grammar_facts _ _ H) as (E & Hwf & Hrp).
   unfold convert_nohdr, restore. cbv zeta. fold (req_names s) (req_toks s).
-  replace (passes_nohdr (req_names s) (req_toks s)) with (passes_nohdr (req_names s) (toks (segs_of (req_toks s)))) by (rewrite E; reflexivity).
-  rewrite (passes_nohdr_subst (req_names s) Hrp _ Hwf). fold (req_segs s). unfold req_segs at 1. rewrite E. reflexivity.
+  replace (passes_nohdr q (req_names s) (req_toks s)) with (passes_nohdr q (req_names s) (toks (segs_of (req_toks s)))) by (rewrite E; reflexivity).
+  rewrite (passes_nohdr_subst (req_names s) Hrp q _ Hwf). fold (req_segs s). unfold req_segs at 1. rewrite E. reflexivity.
 Qed.
 
-Theorem convert_hdr_subst : forall kwd word s hdr, req_in_grammar s = true -> fast_single_ok kwd word s = false ->
-  convert_hdr kwd word s hdr = restore s (toks (subst_segs (req_names s) (hdr_ctes word (req_toks s)) hdr false (req_segs s))).
+Theorem convert_hdr_subst : forall q kwd word s hdr, req_in_grammar s = true -> fast_single_ok kwd word s = false ->
+  convert_hdr q kwd word s hdr = restore s (toks (subst_segs (req_names s) (hdr_ctes q word (req_names s) (req_toks s)) hdr false (req_segs s))).
 Proof.
-  intros kwd word s hdr H Hf. destruct (in_grammar_facts _ _ H) as (E & Hwf & Hrp).
+  intros q kwd word s hdr H Hf. destruct (in_grammar_facts _ _ H) as (E & Hwf & Hrp).
   unfold convert_hdr, restore. rewrite Hf. cbv zeta. fold (req_names s) (req_toks s).
-  replace (passes_hdr word (req_names s) hdr (req_toks s)) with (passes_hdr word (req_names s) hdr (toks (segs_of (req_toks s)))) by (rewrite E; reflexivity).
-  rewrite (passes_hdr_subst (req_names s) Hrp word hdr _ Hwf). fold (req_segs s). unfold req_segs at 1. rewrite E. reflexivity.
+  replace (passes_hdr q word (req_names s) hdr (req_toks s)) with (passes_hdr q word (req_names s) hdr (toks (segs_of (req_toks s)))) by (rewrite E; reflexivity).
+  rewrite (passes_hdr_subst (req_names s) Hrp q word hdr _ Hwf). fold (req_segs s). unfold req_segs at 1. rewrite E. reflexivity.
 Qed.
 
 Lemma gate_exec_inv : forall fx s hdr chk rt text, gate_gen fx s hdr = OExec chk rt text ->
-  chk = override_default hdr (extract_refs (fx_dedup fx) (req_names s) (req_toks s))
+  chk = override_default hdr (extract_refs (fx_cteq fx) (fx_dedup fx) (req_names s) (req_toks s))
   /\ rt = route_of (fx_noraw fx) s /\ text = executed_text fx s hdr.
 Proof.
   intros fx s hdr chk rt text H. unfold gate_gen in H.
@@ -1571,25 +1671,28 @@ Proof.
   - injection H as <- <- <-. auto.
 Qed.
 
+Definition req_ctes (fx : fixset) (s : bytes) : list bytes := cte_set (fx_cteq fx) (req_names s) (req_toks s).
+Definition req_hdr_ctes (fx : fixset) (s : bytes) : list bytes := hdr_ctes (fx_cteq fx) (fx_with fx) (req_names s) (req_toks s).
+
 Theorem gate_transform_nohdr : forall fx s chk rt text, req_in_grammar s = true ->
   gate_gen fx s [] = OExec chk rt text -> rt = Transformed ->
-  text = restore s (toks (subst_segs (req_names s) (cte_names (req_toks s)) k_default true (req_segs s)))
-  /\ forall r, In r (rewritten_refs (req_names s) (cte_names (req_toks s)) k_default true (req_segs s)) -> covers chk r = true.
+  text = restore s (toks (subst_segs (req_names s) (req_ctes fx s) k_default true (req_segs s)))
+  /\ forall r, In r (rewritten_refs (req_names s) (req_ctes fx s) k_default true (req_segs s)) -> covers chk r = true.
 Proof.
   intros fx s chk rt text Hg H Hrt. destruct (gate_exec_inv _ _ _ _ _ _ H) as (-> & -> & ->).
-  destruct (in_grammar_facts _ _ Hg) as (E & Hwf & Hrp). split.
+  destruct (in_grammar_facts _ _ Hg) as (E & Hwf & Hrp). unfold req_ctes. split.
   - unfold executed_text. rewrite Hrt. apply convert_nohdr_subst. exact Hg.
   - intros r Hr. cbn [override_default]. rewrite <- E. apply coverage_nohdr; [exact Hwf|]. unfold req_segs in Hr. rewrite E. exact Hr.
 Qed.
 
 Theorem gate_transform_hdr : forall fx s hdr chk rt text, req_in_grammar s = true -> hdr <> [] ->
-  fast_single_ok (fx_single fx) (fx_with fx) s = false -> hdr_ctes (fx_with fx) (req_toks s) = cte_names (req_toks s) ->
+  fast_single_ok (fx_single fx) (fx_with fx) s = false -> req_hdr_ctes fx s = req_ctes fx s ->
   gate_gen fx s hdr = OExec chk rt text -> rt = Transformed ->
-  text = restore s (toks (subst_segs (req_names s) (hdr_ctes (fx_with fx) (req_toks s)) hdr false (req_segs s)))
-  /\ forall r, In r (rewritten_refs (req_names s) (hdr_ctes (fx_with fx) (req_toks s)) hdr false (req_segs s)) -> covers chk r = true.
+  text = restore s (toks (subst_segs (req_names s) (req_hdr_ctes fx s) hdr false (req_segs s)))
+  /\ forall r, In r (rewritten_refs (req_names s) (req_hdr_ctes fx s) hdr false (req_segs s)) -> covers chk r = true.
 Proof.
   intros fx s hdr chk rt text Hg Hh Hf Hc H Hrt. destruct (gate_exec_inv _ _ _ _ _ _ H) as (-> & -> & ->).
-  destruct (in_grammar_facts _ _ Hg) as (E & Hwf & Hrp). split.
+  destruct (in_grammar_facts _ _ Hg) as (E & Hwf & Hrp). unfold req_hdr_ctes, req_ctes in *. split.
   - unfold executed_text. rewrite Hrt. destruct hdr as [|h0 hdr']; [congruence|]. apply convert_hdr_subst; assumption.
   - intros r Hr. rewrite <- E. apply coverage_hdr with (word := fx_with fx); try assumption; unfold req_segs in *; rewrite E; assumption.
 Qed.
@@ -1600,6 +1703,35 @@ Proof.
   unfold executed_text. destruct (route_of (fx_noraw fx) s); try reflexivity. congruence.
 Qed.
 
+(* ---- the current source: every repair present ---- *)
+Theorem gate_current_nohdr : forall s chk rt text, req_in_grammar s = true ->
+  gate_gen fx_all s [] = OExec chk rt text ->
+  rt = Transformed
+  /\ text = restore s (toks (subst_segs (req_names s) (req_ctes fx_all s) k_default true (req_segs s)))
+  /\ forall r, In r (rewritten_refs (req_names s) (req_ctes fx_all s) k_default true (req_segs s)) -> covers_exact chk r = true.
+Proof.
+  intros s chk rt text Hg H. destruct (gate_exec_inv _ _ _ _ _ _ H) as (-> & -> & ->).
+  destruct (in_grammar_facts _ _ Hg) as (E & Hwf & Hrp). unfold req_ctes. split; [reflexivity|]. split.
+  - unfold executed_text. cbn [fx_all fx_noraw fx_cteq route_of]. apply convert_nohdr_subst. exact Hg.
+  - intros r Hr. cbn [override_default fx_all fx_cteq fx_dedup]. rewrite <- E. apply coverage_nohdr_exact; [exact Hwf|].
+    unfold req_segs in Hr. rewrite E. exact Hr.
+Qed.
+
+Theorem gate_current_hdr : forall s hdr chk rt text, req_in_grammar s = true -> hdr <> [] ->
+  fast_single_ok true true s = false ->
+  gate_gen fx_all s hdr = OExec chk rt text ->
+  rt = Transformed
+  /\ text = restore s (toks (subst_segs (req_names s) (req_ctes fx_all s) hdr false (req_segs s)))
+  /\ forall r, In r (rewritten_refs (req_names s) (req_ctes fx_all s) hdr false (req_segs s)) -> covers_exact chk r = true.
+Proof.
+  intros s hdr chk rt text Hg Hh Hf H. destruct (gate_exec_inv _ _ _ _ _ _ H) as (-> & -> & ->).
+  destruct (in_grammar_facts _ _ Hg) as (E & Hwf & Hrp). unfold req_ctes. split; [reflexivity|]. split.
+  - unfold executed_text. cbn [fx_all fx_noraw fx_cteq fx_single fx_with route_of].
+    destruct hdr as [|h0 hdr']; [congruence|]. rewrite (convert_hdr_subst true true true s _ Hg Hf). reflexivity.
+  - intros r Hr. cbn [fx_all fx_cteq fx_dedup]. rewrite <- E.
+    apply (coverage_hdr_exact true true (req_names s) hdr _ Hwf Hh eq_refl). unfold req_segs in Hr. rewrite E. exact Hr.
+Qed.
+
 (* with the repair of the header converters the hypothesis about the CTE names always holds *)
-Lemma hdr_ctes_same : forall ts, hdr_ctes true ts = cte_names ts.
+Lemma hdr_ctes_same : forall q names ts, hdr_ctes q true names ts = cte_set q names ts.
 Proof. reflexivity. Qed.
